@@ -132,6 +132,7 @@ type Contracts struct {
 	Chans    map[string]*ChanAttr
 	EnvShrink [][2]string
 	Confined map[string]string // heap key -> token
+	Lemmas   []*Clause
 }
 
 func newContracts() *Contracts {
@@ -141,7 +142,7 @@ func newContracts() *Contracts {
 }
 
 var topKeywords = map[string]bool{"func": true, "pred": true, "def": true, "fun": true, "axiom": true, "ghost": true, "lockinv": true,
-	"owned": true, "trusted": true, "immutable": true, "alloc": true, "lockorder": true, "chan": true, "env": true, "confined": true}
+	"owned": true, "trusted": true, "immutable": true, "alloc": true, "lockorder": true, "chan": true, "env": true, "confined": true, "lemma": true}
 var fnKeywords = map[string]bool{"requires": true, "ensures": true, "loop": true, "invariant": true, "decreases": true,
 	"step": true, "let": true, "mode": true, "modifies": true, "ghostvar": true, "mathint": true, "thread": true,
 	"pure": true, "unroll": true, "noinline": true, "consumes": true, "opt": true, "effect": true, "atcall": true, "init": true, "exit": true, "writes": true}
@@ -441,6 +442,13 @@ func (cs *Contracts) loadFile(path string) error {
 			}
 			name := strings.TrimSpace(d.text[:j])
 			cs.SpecFuns[name] = &SpecFunDef{Name: name, Params: parseParams(d.text[j+1 : k]), Ret: strings.TrimSpace(d.text[k+1:])}
+			cur, curLockInv = nil, nil
+		case "lemma":
+			c, err := parseClause(d, d.text)
+			if err != nil {
+				return err
+			}
+			cs.Lemmas = append(cs.Lemmas, c)
 			cur, curLockInv = nil, nil
 		case "axiom":
 			c, err := parseClause(d, d.text)
